@@ -1,12 +1,81 @@
 import Driver.Util
-/-! Driver section for C15 (stub until the model is online). -/
+import RxnModel.Model.JobFsm
+/-! Driver section for C15: replays the harness' action lines on `JobFsm.step` (the definition the theorems of
+`Props/C15.lean` are about) and renders the observations. Header: `M C15 <workerCount> <deadline> <initial ckpt>`. -/
 namespace Driver.C15
-open Rxn Driver
+open Rxn Driver Rxn.JobFsm
 
-def step (st : Unit) : List String → Unit × String
-  | _ => (st, "bad-op")
+def ids (xs : List Nat) : String :=
+  if xs.isEmpty then "-" else joinWith "," (xs.map toString)
+
+def optNat : Option Nat → String
+  | none => "none"
+  | some n => toString n
+
+def showStatus : Status → String
+  | .init => "Init" | .paused => "Paused" | .starting => "Starting" | .running => "Running"
+
+def showAck : AckRes → String
+  | .ok none => "ok" | .ok (some n) => s!"ok pub={n}" | .nopending => "nopending" | .mismatch => "mismatch"
+  | .unknown => "unknown"
+
+def render : Out → String
+  | .status st none => showStatus st
+  | .status st (some d) => s!"{showStatus st} deploy o={ids d.ops} s={ids d.srs} ck={optNat d.ck}"
+  | .done => "ok"
+  | .nostart => "nostart"
+  | .started st ck asg sp sr =>
+      let stale := (if sp then ["pending"] else []) ++ sr.map (fun i => s!"rec:{i}")
+      s!"{showStatus st} start={optNat ck} as={ids asg} stale={if stale.isEmpty then "none" else joinWith "+" stale}"
+  | .stopped => "stopped"
+  | .retry => "retry"
+  | .ckpt id srs => s!"ckpt {id} s={ids srs}"
+  | .ack r => showAck r
+  | .barOk => "ok"
+  | .barAcked none => "ok acked"
+  | .barAcked (some n) => s!"ok acked pub={n}"
+  | .barAckErr r => s!"ackerr {showAck r}"
+  | .barMismatch => "mismatch"
+  | .barBlocked => "blocked"
+  | .barNotReady => "notready"
+  | .barWouldPanic => "wouldpanic"
+
+def showState (s : St) : String :=
+  let pend := match s.store.pending with
+    | none => "none"
+    | some p => s!"{p.id}:o{ids p.waitOps}:s{ids p.waitSrs}"
+  let recs := (List.range 10).filterMap fun i =>
+    match (s.procs i).inflight with
+    | some (id, waiting) => some s!"{i}:{id}/{ids waiting}"
+    | none => none
+  s!"{showStatus s.status} reg=o{ids s.ops}:s{ids s.srs} asm=o{ids s.asmOps}:s{ids s.asmSrs} pend={pend} cur={optNat s.store.current} tick={if s.ticker then 1 else 0} rec={if recs.isEmpty then "-" else joinWith ";" recs}"
+
+def parse : List String → Option Act
+  | ["reg", "o", i] => some (.regO (natOr i))
+  | ["reg", "s", i] => some (.regS (natOr i))
+  | ["dereg", "o", i] => some (.deregO (natOr i))
+  | ["dereg", "s", i] => some (.deregS (natOr i))
+  | ["adv", n] => some (.adv (natOr n))
+  | ["deployok"] => some .deployOk
+  | ["deployfail", k] => some (.deployFail (natOr k))
+  | ["tick"] => some .tick
+  | ["ack", "s", i, id] => some (.ackS (natOr i) (natOr id))
+  | ["ack", "o", i, id] => some (.ackO (natOr i) (natOr id))
+  | ["bar", i, s, id] => some (.bar (natOr i) (natOr s) (natOr id))
+  | _ => none
+
+def stepLine (s : St) (ws : List String) : St × String :=
+  match ws with
+  | ["st"] => (s, showState s)
+  | _ =>
+    match parse ws with
+    | some a => let (s', o) := step s a; (s', render o)
+    | none => (s, "bad-op")
 
 def handle (lines : Array String) (i : Nat) (out : Array String) : Nat × Array String :=
-  runLines step () lines i out
+  let st₀ := match words (lines.getD (i - 1) "") with
+    | [_, _, w, d, c0] => init (natOr w) (natOr d) (natOr c0)
+    | _ => init 1 5 0
+  runLines stepLine st₀ lines i out
 
 end Driver.C15
